@@ -59,6 +59,7 @@ inductive Val where
   | vars (kvs : List (String Ã— PV))      -- the variables dict built by the method
   | self
   | kwargs
+  | item                                 -- an element produced by `self.execute_ws(...)`
   deriving Repr
 
 abbrev Env := List (String Ã— Val)
@@ -106,6 +107,11 @@ def call (b : Body) (opText : String) (env0 : Env) : Except String (Val Ã— Val Ã
     match lookup b.callQuery env2, lookup b.callVars env2, lookup b.callKwargs env2 with
     | some q, some v, some k => .ok (q, v, k)
     | _, _, _ => .error "NameError"
+
+/-- `async for <loopTarget> in self.execute_ws(â€¦): yield <Ret>.model_validate(<yieldArg>)`:
+    what `model_validate` receives for an element (the loop target is assigned on every round -
+    rebinding a parameter of that name, if there is one) -/
+def yieldValue (b : Body) (env : Env) : Option Val := lookup b.yieldArg (assign b.loopTarget .item env)
 
 /-- the `query` string `execute_ws` receives -/
 def queryString (opText : String) : Val â†’ Option String
